@@ -18,6 +18,18 @@ func GenericOracle(sc *Scenario, w *World, x *Exec) []Violation {
 		// an uncontrolled goroutine is left behind
 		vs = append(vs, Violation{Prop: "C14", Rule: "no-goroutine-left", Sig: "bubble-not-drained", Detail: x.Bubble})
 	}
+	limit := sc.Opt.AllocLimit
+	if limit == 0 {
+		limit = DefaultAllocLimit
+	}
+	if x.Alloc > limit {
+		prop := ""
+		if sc.Prop != "C06" {
+			prop = "C09" // "... or make it buffer more than one flow-control window of data per open stream"
+		}
+		vs = append(vs, Violation{Prop: prop, Rule: "bounded-memory", Sig: "alloc:execution-allocated-more-than-limit",
+			Detail: fmt.Sprintf("this one execution allocated %d bytes (limit %d): memory use is not bounded by the data actually received", x.Alloc, limit)})
+	}
 	for _, m := range w.InvFail {
 		vs = append(vs, Violation{Rule: "invariant", Sig: "inv:" + strings.SplitN(m, ": ", 2)[1], Detail: m})
 		break
